@@ -10,7 +10,7 @@ V = os.path.dirname(os.path.dirname(os.path.abspath(__file__)))
 pid, b = sys.argv[1], sys.argv[2]
 src = f"/var/tmp/seed/out-{pid}/{b}"
 dst = f"{V}/benign/{pid}-{b}"
-if os.path.isdir(src):
+if os.path.isdir(src) and not os.path.exists(dst + "/patch.diff"):
     os.makedirs(dst, exist_ok=True)
     for f in ("patch.diff", "meta.json"):
         shutil.copy(os.path.join(src, f), dst)
